@@ -85,7 +85,7 @@ func (o mmOp) String() string {
 
 var mmPool = []string{
 	"/a", "/a/{x}", "/a/{y}", "/a/{x}/b", "/a/*{w}", "/a/*{v}", "/{x}", "/ab",
-	"foo.{bar}.com/baz", "foo.{bar}/baz", "foo.{qux}/baz", "{s}.com/a", "h.com/a",
+	"foo.{bar}.com/baz", "foo.{bar}/baz", "foo.{qux}/baz", "{s}.com/a", "h.com/a", "/ab/cd", "/ab/ce",
 }
 
 func mmErrKind(err error) string {
@@ -351,7 +351,7 @@ func TestFoxvcStandinMapModel(t *testing.T) {
 						report("routes seq=%v step=%d txn=%v: Routes(%s): model %v, router %v", seq[:i+1], i, inTxn, pat, w, g)
 					}
 				}
-				for _, pre := range []string{"/a", "/a/", "foo.", "/"} {
+				for _, pre := range []string{"/a", "/a/", "foo.", "/", "/ab/d", "/ab/c", "/b", "/ab/cde"} {
 					var w, g []string
 					for mk := range model {
 						if strings.HasPrefix(mk.p, pre) {
